@@ -69,7 +69,11 @@ let () =
     let line = input_line stdin in
     Buffer.clear out;
     (try
-      let toks = List.filter (fun s -> s <> "") (String.split_on_char ' ' line) in
+      let spaced = Buffer.create (String.length line + 16) in
+      String.iter (fun c -> if c = '[' || c = ']' then begin
+          Buffer.add_char spaced ' '; Buffer.add_char spaced c; Buffer.add_char spaced ' ' end
+        else Buffer.add_char spaced c) line;
+      let toks = List.filter (fun s -> s <> "") (String.split_on_char ' ' (Buffer.contents spaced)) in
       (match toks with
        | [] -> Buffer.add_string out "[8]"
        | name :: rest ->
